@@ -1359,7 +1359,7 @@ impl<'ctx> ByteCompiler<'ctx> {
                 });
             }
             None => {
-                self.compile_expr_operand(binary.lhs(), |compiler, lhs| {
+                self.compile_expr_operand_before(binary.lhs(), Some(binary.rhs()), |compiler, lhs| {
                     compiler.compile_expr_operand(binary.rhs(), |compiler, rhs| {
                         label_index = compiler.next_opcode_location();
                         emit_fn(&mut compiler.bytecode, Self::DUMMY_ADDRESS, lhs, rhs);
@@ -1811,7 +1811,24 @@ impl<'ctx> ByteCompiler<'ctx> {
         expr: &Expression,
         inner_fn: impl FnOnce(&mut Self, RegisterOperand),
     ) {
-        if let Expression::Identifier(name) = expr {
+        self.compile_expr_operand_before(expr, None, inner_fn);
+    }
+
+    /// Like [`compile_expr_operand`](Self::compile_expr_operand), for an operand that is
+    /// evaluated before `later` (the left operand of a binary operator).
+    ///
+    /// The persistent register of a local must not stand for the value of the operand if
+    /// evaluating `later` can assign to that local: `x + (x = 5)` adds the old value of `x`.
+    /// In that case the value is copied into a temporary register first.
+    pub(crate) fn compile_expr_operand_before(
+        &mut self,
+        expr: &Expression,
+        later: Option<&Expression>,
+        inner_fn: impl FnOnce(&mut Self, RegisterOperand),
+    ) {
+        if let Expression::Identifier(name) = expr
+            && !later.is_some_and(|later| may_assign_to(later, name.sym()))
+        {
             let name = self.resolve_identifier_expect(*name);
             let binding = self.lexical_scope.get_identifier_reference(name);
             let index = self.get_binding(&binding);
@@ -2825,4 +2842,50 @@ impl<'ctx> ByteCompiler<'ctx> {
     ) {
         self.compile_declaration_pattern_impl(pattern, def, object);
     }
+}
+
+/// Returns `true` if evaluating `expr` can assign to the binding called `name`.
+///
+/// This is a syntactic over-approximation: any assignment or update whose target is an identifier
+/// with that name, and any destructuring assignment.
+fn may_assign_to(expr: &Expression, name: Sym) -> bool {
+    use boa_ast::{
+        expression::operator::{
+            Assign, Update, assign::AssignTarget, update::UpdateTarget,
+        },
+        visitor::{VisitWith, Visitor},
+    };
+    use std::ops::ControlFlow;
+
+    struct AssignsTo(Sym);
+
+    impl<'ast> Visitor<'ast> for AssignsTo {
+        type BreakTy = ();
+
+        fn visit_assign(&mut self, node: &'ast Assign) -> ControlFlow<Self::BreakTy> {
+            match node.lhs() {
+                AssignTarget::Identifier(ident) if ident.sym() == self.0 => {
+                    return ControlFlow::Break(());
+                }
+                AssignTarget::Pattern(_) => return ControlFlow::Break(()),
+                _ => {}
+            }
+            node.visit_with(self)
+        }
+
+        fn visit_update(&mut self, node: &'ast Update) -> ControlFlow<Self::BreakTy> {
+            if let UpdateTarget::Identifier(ident) = node.target()
+                && ident.sym() == self.0
+            {
+                return ControlFlow::Break(());
+            }
+            node.visit_with(self)
+        }
+    }
+
+    // Neither a literal nor an identifier can assign anything; avoid the walk for them.
+    if matches!(expr, Expression::Literal(_) | Expression::Identifier(_)) {
+        return false;
+    }
+    AssignsTo(name).visit_expression(expr).is_break()
 }
